@@ -50,6 +50,12 @@ var UploadURLResponseSchema = arrow.NewSchema([]arrow.Field{
 // generate. Response: an Arrow IPC stream with one batch of (upload_url,
 // download_url, expires_at) rows.
 func (h *HttpServer) handleUploadURLInit(w http.ResponseWriter, r *http.Request) {
+	// The route vends pre-signed storage URLs, so it sits behind the
+	// authenticator like every other RPC route: a rejected caller gets the
+	// standard 401/503/500 and the provider is never consulted.
+	if auth := h.authenticate(w, r); auth == nil {
+		return
+	}
 	if h.uploadURLProvider == nil {
 		http.NotFound(w, r)
 		return
